@@ -255,7 +255,7 @@ RowSet(cols, rich) ==
     {r \in [1..Len(cols) -> UNION {CellSet(cols[i], i = Len(cols), rich) : i \in DOMAIN cols}] :
         \A i \in DOMAIN cols : r[i] \in CellSet(cols[i], i = Len(cols), rich)}
 RowSeqs(cols, nb) ==
-    IF Len(cols) = 3 THEN SeqsUpTo(RowSet(cols, Deep), 1) \cup (IF Deep THEN SeqsOf(RowSet(cols, FALSE), 2) ELSE {})
+    IF Len(cols) = 3 THEN SeqsUpTo(RowSet(cols, Deep), 1)
     ELSE IF Len(cols) = 2 THEN SeqsUpTo(RowSet(cols, TRUE), 1) \cup UNION {SeqsOf(RowSet(cols, Deep), m) : m \in 2..nb}
     ELSE SeqsUpTo(RowSet(cols, TRUE), nb)
 Edge(hi, junk, ti, foot) == [hi |-> hi, junk |-> junk, ti |-> ti, foot |-> foot]
